@@ -100,4 +100,20 @@ CHECKS = {
         "required_classes": {"outcome:accepted": 0.1, "outcome:spec-error": 0.05, "outcome:usage-error": 0.1, "spec:nested-repetition-of-nullable-or-env": 0.005, "env:some-option-backed": 0.3},
         "assumptions": COMMON_ASSUMPTIONS + ["'never hangs' is decided by a 10 s per-call deadline (normal cost is microseconds) confirmed twice in a fresh process with a 60 s deadline"],
     },
+    "C05": {
+        "level": "fault_enumeration",
+        "tests": [
+            {"name": "TestC05Exhaustive", "quick": 16, "thorough": 16, "rapid": False, "timeout": 3000,
+             "env": {"VERIF_C05_DEPTH": 4}, "env_thorough": {"VERIF_C05_DEPTH": 5}},
+            {"name": "TestC05Random", "quick": 48000, "thorough": 1600000},
+        ],
+        "rule": "fault plan = path depth d and, for each of the 2d+3 hooks (Before_0..Before_d, Action, After_0..After_d), one of {absent, returns, panics with a unique pointer value, calls Exit(100+i)}; "
+                "the 4^(2d+3) plans are ENUMERATED COMPLETELY for every d <= 4 (quick; 4 456 512 plans) / d <= 5 (thorough; 71 565 376 plans); rapid adds random plans at depth 0-8 with sibling commands at every level "
+                "and a command below the addressed one whose hooks must never run; oracle: reference model of the statement (order, multiplicity, Afters of exactly the levels whose Before completed, "
+                "last raised value decides: Exit(n) -> exit stub called once with n after the last After (the stub's call is an entry of the same log), other value -> the identical pointer is recovered from Run); "
+                "plans whose addressed command has no Action are not claimed (library prints help) and only get weak invariants; non-trivial = claimed plan with >= 1 panicking/exiting hook and d >= 1; plans are distinct by construction",
+        "exhaustive": True,
+        "required_classes": {"random:faulty": 0.001, "random:depth>=6": 0.0005},
+        "assumptions": COMMON_ASSUMPTIONS + ["the exit stub never returns (like os.Exit): it panics with a private sentinel recovered around Run; hooks are plain closures, no goroutines"],
+    },
 }
